@@ -35,16 +35,13 @@ LEAN_SOURCES = ["LenaModel/Model/NArr.lean", "LenaModel/Model/C12.lean", "LenaMo
 DRIVER = "drivers/C12.lean"
 THEOREMS = [
     "Lena.C12.hist_scale",
-    "Lena.C12.hist_scale_recomputed",
+    "Lena.C12.hist_scale_recomputed_partial",
     "Lena.C12.hist_scale_zero",
     "Lena.C12.hist_scale_total",
     "Lena.C12.set_nevents_spec",
-    "Lena.C12.set_nevents_zero",
     "Lena.C12.set_nevents_total",
-    "Lena.C12.get_nevents_spec",
     "Lena.C12.add_cellwise",
     "Lena.C12.add_cell",
-    "Lena.C12.add_rejects_nbins",
     "Lena.C12.add_rejects_edges",
     "Lena.C12.add_only_equal_edges",
     "Lena.C12.iter_bins_with_edges_agrees",
@@ -52,22 +49,12 @@ THEOREMS = [
     "Lena.C12.iterators_agree",
     "Lena.C12.iter_cells_ranges",
     "Lena.C12.iter_cells_bad_range",
-    "Lena.C12.graph_scale_unknown_or_zero",
     "Lena.C12.graph_scale",
     "Lena.C12.hist_to_graph_points",
-    "Lena.C12.hist_to_graph_bad_mode",
-    "Lena.C12.getCoord_spec",
     "Lena.C12.csv_rows_1d",
     "Lena.C12.csv_rows_2d",
     "Lena.C12.csv_rows_2d_count",
-    "Lena.C12.csv_not_converted",
-    "Lena.C12.csv_dim3_unchanged",
-    "Lena.C12.csv_graph_rows",
-    "Lena.C12.scale_to_call_spec",
-    "Lena.C12.scale_to_call_errors",
     "Lena.C12.scale_loop_spec",
-    "Lena.C12.scale_to_number",
-    "Lena.C12.scale_to_selector",
     "Lena.C12.mkHist_wf",
     "Lena.C12.add_defined",
     "Lena.C12.graph_valid_naming",
@@ -77,45 +64,106 @@ THEOREMS = [
     "Lena.C12.graph_add_spec",
     "Lena.C12.graph_add_error_fields",
     "Lena.C12.iter_cells_coord_ranges",
-    "Lena.C12.iter_cells_both_ranges",
     "Lena.C12.coord_range_axis_selects",
     "Lena.C12.get_bin_edges_nested",
     "Lena.C12.get_bin_edges_flat",
     "Lena.C12.get_bin_on_index_cells",
     "Lena.C12.fmt_precision",
+    "Lena.C12.scale_none_reads_only",
+    "Lena.C12.add_then_scale",
+    "Lena.C12.add_then_rescale",
+    "Lena.C12.hist_scale_recomputed_full_false",
+    "Lena.C12.integral_spec",
+    "Lena.C12.hist_scale_value",
+    "Lena.C12.addU_cellwise",
+    "Lena.C12.addU_defined",
+    "Lena.C12.csv_rows_1d_any",
+    "Lena.C12.csv_rows_valid_1d",
+    "Lena.C12.csv_rows_valid_2d",
+    "Lena.C12.parse_fmt",
+]
+# true by unfolding one branch of the model / glue between definitions / decision procedures of the vocabulary: audited, but
+# not counted as proof obligations of the property
+AUX_THEOREMS = [
+    "Lena.C12.scale_to_number",
+    "Lena.C12.group_scale_call",
+    "Lena.C12.graph_add_not_graph",
+    "Lena.C12.iter_cells_both_ranges",
     "Lena.C12.csv_text_spec",
     "Lena.C12.csv_text_of_rows",
     "Lena.C12.hist_to_graph_element",
-    "Lena.C12.group_scale_call",
-    "Lena.C12.graph_add_not_graph",
-    "Lena.C12.scale_none_reads_only",
+    "Lena.C12.csv_not_converted",
+    "Lena.C12.csv_dim3_unchanged",
+    "Lena.C12.csv_graph_rows",
+    "Lena.C12.hist_to_graph_bad_mode",
+    "Lena.C12.get_nevents_spec",
+    "Lena.C12.set_nevents_zero",
+    "Lena.C12.graph_scale_unknown_or_zero",
+    "Lena.C12.add_rejects_nbins",
+    "Lena.C12.scale_to_selector",
+    "Lena.C12.scale_to_call_spec",
+    "Lena.C12.scale_to_call_errors",
+    "Lena.C12.getCoord_spec",
     "Lena.C12.wfB_iff",
     "Lena.C12.validB_iff",
     "Lena.C12.inRangeB_iff",
     "Lena.C12.validRangesB_iff",
     "Lena.C12.errorFieldOfB_iff",
     "Lena.C12.nonEmptyAxesB_iff",
-    "Lena.C12.add_then_scale",
-    "Lena.C12.add_then_rescale",
+    "Lena.C12.mkHistU_eq",
+    "Lena.C12.addU_eq",
+    "Lena.C12.toCsvHistU_eq",
+    "Lena.C12.mkHistU_some",
+    "Lena.C12.addWith_cellwise",
 ]
 TRUSTED = [
     "Lean 4.33.0 kernel; axioms limited to propext, Classical.choice, Quot.sound (audited by #print axioms on every run)",
-    "hand transcription of the functions listed in the header of LenaModel/Model/C12.lean (and NArr.lean: iter_bins, "
-    "get_bin_on_index, md_map, init_bins), validated by this correspondence check",
+    "hand transcription of the functions listed in the headers of LenaModel/Model/C12.lean and C12Ext.lean (and "
+    "NArr.lean: iter_bins, get_bin_on_index, md_map, init_bins; C06.lean: get_bin_on_value_1d), validated by this "
+    "correspondence check on the generated cases only (generator quality bounds the assurance)",
+    "the Python reference computations of the oracle and of the vocabulary checks (ref_cells, ref_integral, RefHist, "
+    "RefGraph, ref_parse_names, _ref_csv_rows, parse_csv)",
+    "CPython's '{:f}' prints the correctly rounded (ties to even) six-decimal value of a float: fmtF is that function on "
+    "exact rationals; compared character by character on the generated numbers (incl. ties k/128)",
     "JSON line protocol encoders (harness/props/c12.py, drivers/C12.lean); numbers as exact rationals 'n/d'",
 ]
 ASSUMPTIONS = [
-    "exact rational arithmetic stands for Python int/float arithmetic: rounding is outside the model; the correspondence "
-    "uses cases on which every float operation is exact, the oracle checks 'up to rounding' numerically on the others",
-    "'{:f}' / repr formatting of numbers in CSV output is not modelled (rows are tuples of numbers in the model); the "
-    "harness parses the text back",
+    "exact rational arithmetic stands for Python int/float arithmetic: rounding is outside the model. The correspondence "
+    "uses cases on which every float operation is exact (small dyadic numbers; targets chosen as dyadic ratio x current "
+    "value), so the int/float TYPE of a result is not observed; cases with arbitrary floats (hscale/nevents targets, add "
+    "with thirds/tenths/long decimals and arbitrary weights, graph rescaling) are judged by the oracle only, with a "
+    "rounding bound (add: the rigorous 3*2**-53*(|a|+|w*b|); scale/nevents: 1e-11 relative)",
+    "the sentence 'makes the recomputed scale equal s' is false of the code without a side condition "
+    "(hist_scale_recomputed_full_false: a stale stored _scale is used as the old scale); it is proved under the "
+    "hypothesis that a stored scale equals the integral (hist_scale_recomputed_partial), which holds for every scale "
+    "computed or set by lena itself; the oracle makes no claim about scale() / scale(s) of an object whose stored scale "
+    "is stale (after set_nevents) until it is recomputed",
+    "synthetic states: the harness writes n_out_of_range and _scale through attributes (stale / zero / user-set stored "
+    "scales are states a user can reach by filling or set_nevents after scale())",
+    "one-dimensional histograms in both formats [x0,...] and [[x0,...]] are modelled and generated (the latter per "
+    "notes/C12_defect_4: Model/C12Ext.lean mkHistU/addU/toCsvHistU; Model/C12.lean mkHist still answers 'unmodelled' "
+    "for it because Bridge/Hist.lean states theorems about that branch)",
+    "'All inputs' in theorem comments means all values of the model types; on states that the constructor rejects "
+    "(empty axes: nbinsOf truncates len-1 at 0) the model is not claimed to be the code",
     "iter_cells(coord_ranges=...) is modelled on top of C06's model of get_bin_on_value_1d (Lena.C06.bin1d) run with the "
-    "trivial interpolation guess ind_min; by C06's theorem bin1d_guess_independent the result does not depend on the guess",
+    "trivial interpolation guess ind_min; by C06's theorem bin1d_guess_independent the result does not depend on the "
+    "guess. WHICH cells coord_ranges selects is compared with the model but not judged by the oracle (lena's docstring "
+    "and code differ: notes/C12_defect_2.md, recorded as an observation)",
+    "graph + graph with error fields raises although the docstring says they are ignored (notes/C12_defect_3.md, "
+    "observation); hist_to_graph with fewer field names than numbers per point truncates the points (documented "
+    "precondition of the caller): both compared with the model, not judged",
+    "Selector is modelled as a class test only (ScaleTarget.selectHist/selectGraph); string / callable / composite "
+    "selectors in scale_to are not exercised; the contexts written by HistToGraph (value, variable: C14) and by "
+    "graph._update_context are not compared; context.histogram written by ToCSV is",
     "relational vocabulary of the scale_to theorems (ItemDone, AllDone, ItemFails, LoopPost) consists of propositions "
     "over the model function structScale and equality only; it is not executed (nothing to validate beyond structScale)",
-    "repr() of floats in the CSV of graphs is not modelled (rows of numbers only); '{:f}' of histograms is",
+    "repr() of floats in the CSV of graphs is not modelled (rows of numbers only); '{:f}' of histograms is (fmtF, "
+    "parse_fmt, fmt_precision)",
+    "bins that do not have the shape of the edges (ragged, deeper) in add / CSV / iterators, assert failures of "
+    "graph.__add__, and the deprecated class Graph are outside the statement: compared with the model where it "
+    "predicts something ('unmodelled' = no prediction), never judged",
     "operands are not modified / results do not alias operands: not expressible in the pure value model; checked by "
-    "snapshots and identity checks on the real objects",
+    "snapshots and identity checks on the real objects (lists only: for tuple edges deepcopy returns the same object)",
 ]
 RULE = ("cases per op over histograms of every shape 1..4 (1-dim), 1..3 x 1..3 (2-dim), 1..3 x 1..3 x 1..2 (3-dim) with "
         "integer and dyadic-float contents of both signs (also all-zero and zero-integral ones) and dyadic edges: "
@@ -135,16 +183,20 @@ RULE = ("cases per op over histograms of every shape 1..4 (1-dim), 1..3 x 1..3 (
         "histograms, graphs and objects without scale, scale_get (scale(recompute) with fresh, stale and missing stored "
         "scale), graph_add (graph + graph with and without error fields, equal and unequal numbers of points), mk_hist "
         "(valid and invalid constructor arguments). About 15 % of the histograms have their edges as tuples (nested "
-        "tuples or a list of tuples). Extension round: iter_coord (iter_cells with coord_ranges: coordinates on edges, "
+        "tuples or a list of tuples); about 15 % of the one-dimensional histograms have their edges nested in a list, "
+        "[[x0, ...]]. Calls with every argument left at its default (a.add(b), hist_to_graph(h), HistToGraph(), ToCSV()), "
+        "make_value returning a list, groups given as tuples, add with arbitrary floats and weights (judged with a "
+        "rigorous rounding bound), add with mid-size edge differences that separate relative from absolute tolerance, "
+        "add / CSV with bins that do not have the shape of the edges are part of the mixture. Extension round: iter_coord (iter_cells with coord_ranges: coordinates on edges, "
         "inside bins, outside; single pair / tuple of pairs / wrong count / together with ranges), bin_edges and "
         "bin_on_index (number and tuple indices, in and out of range), csv_text (the complete CSV text incl. header, "
         "separator, row_end, last_row_end and '{:f}' rounding of arbitrary floats, ties k/128, bins that are lists, data "
-        "without rows()), csv_flow and h2g_flow (two or three values through ONE ToCSV / HistToGraph element), h2g_el "
+        "without rows()), csv_flow and h2g_flow (two or three values through ONE ToCSV / HistToGraph element), "
         "chain (multi-step sequences on two histograms with equal edges: scale()/scale(s)/set_nevents/get_nevents/add "
         "with weights 1, 2, -1, 1/2 in random order, operands with computed, user-set/stale, zero or missing stored "
         "scale, incl. histograms with events but zero integral; every step observed, final states compared), h2g_el "
         "(the HistToGraph element: make_value None / Variable / not a Variable, context.histogram.to_graph, "
-        "non-histograms), GroupScale on a non-sequence, graph + non-graph. Enumerated first: every shape x every "
+        "non-histograms), gchain (scale / scale() / + / rows() sequences on ONE graph, given or made by hist_to_graph), GroupScale on a non-sequence, graph + non-graph. Enumerated first: every shape x every "
         "histogram operation, every valid naming, the prefix/extension edges of add; then a seeded random mixture of all "
         "operations (5.5 k quick / 200 k thorough), produced lazily. With every case the specification vocabulary of the "
         "theorems (Model/C12Spec.lean: wfB, validB, inRangeB, validRangesB, selAll/rangePred, cellEdgesRef, cellRow, "
@@ -413,7 +465,9 @@ def gen_hist(rng, shape, kind=None, pattern=None, ekind=None):
     ekind = ekind or rng.choice(["int", "float"])
     pattern = pattern or rng.choice(["any", "any", "pos", "any", "zero" if rng.random() < 0.3 else "any"])
     axes = [gen_axis(rng, n, ekind) for n in shape]
-    hc = {"edges": {"f": axes[0]} if len(shape) == 1 else {"n": axes}, "bins": gen_bins(rng, shape, kind, pattern),
+    # one-dimensional edges: the list of numbers, or (about 15 %) the same list nested in a list, [[x0, x1, ...]]
+    flat = len(shape) == 1 and rng.random() > 0.15
+    hc = {"edges": {"f": axes[0]} if flat else {"n": axes}, "bins": gen_bins(rng, shape, kind, pattern),
           "nout": enc(F(rng.randint(0, 4)) if kind == "int" or rng.random() < 0.5 else F(rng.randint(0, 12), 4)),
           "scale": None, "kind": kind, "ekind": ekind}
     r = rng.random()
@@ -1858,9 +1912,15 @@ def _model_item(it):
 def _spec_requests(case):
     """requests that execute the specification vocabulary of the theorems (Model/C12Spec.lean, NArr) on this case"""
     op = case["op"]
-    if op == "iter" and well_shaped(case["h"]):
+    if op == "iter":
         rg = case["ranges"]
         return [{"op": "spec_hist", "h": model_hist(case["h"]), "ranges": rg if rg else None}]
+    if op == "mk_hist" and case["bins"] is not None:
+        return [{"op": "spec_hist", "h": {"edges": case["edges"], "bins": case["bins"], "nout": "0/1", "scale": None},
+                 "ranges": None}]
+    if op == "csv_text" and case.get("data") != "other" and well_shaped(case["h"]):
+        vals = [x for ax in axes_of(case["h"]) for x in ax] + list(flat_nested(case["h"]["bins"]))
+        return [{"op": "fmt", "xs": vals}]
     if op == "iter_coord":
         co = case["coord"]
         prs = [co["single"]] if "single" in co else co["many"]
@@ -2020,22 +2080,55 @@ def _compare_spec(case, sp):
     def diff(what, a, b):
         return None if a == b else f"{op}: Lean {what} = {jdump(a)[:300]} but the Python reference gives {jdump(b)[:300]}"
 
-    if op == "iter":
-        hc = case["h"]
-        ref = ref_cells(hc)
-        dims = shape_of(hc)
-        axes_ok = all(len(ax) >= 2 for ax in axes_of(hc))
-        d = (diff("Hist.WF (wfB)", sp["wf"], True) or
+    if op in ("iter", "mk_hist"):
+        hc = case["h"] if op == "iter" else {"edges": case["edges"], "bins": case["bins"]}
+        e = hc["edges"]
+        axes = [[q(x) for x in ax] for ax in ([e["f"]] if "f" in e else e["n"])]
+        dims = [max(0, len(ax) - 1) for ax in axes]
+
+        def pycells(b, idx=()):
+            # iter_bins: whatever is not a list is a cell
+            if not isinstance(b, list):
+                return [(idx, q(b))]
+            return [c for k, x in enumerate(b) for c in pycells(x, idx + (k,))]
+
+        def shaped(b, ds):
+            if not ds:
+                return not isinstance(b, list)
+            return isinstance(b, list) and len(b) == ds[0] and all(shaped(x, ds[1:]) for x in b)
+
+        def edges_ref(idx):
+            # cellEdgesRef: positions outside the arrays read as 0, as many pairs as both lists have entries
+            return [((ax[i] if i < len(ax) else F(0)), (ax[i + 1] if i + 1 < len(ax) else F(0)))
+                    for ax, i in zip(axes, idx)]
+
+        cs = pycells(hc["bins"])
+        wf = bool(axes) and shaped(hc["bins"], dims)
+        edges_checked = bool(axes) and all(len(ax) >= 2 and all(a < b for a, b in zip(ax, ax[1:])) for ax in axes)
+        nested1 = "n" in e and len(e["n"]) == 1
+        vols = []
+        for idx, _ in cs:
+            v = F(1)
+            for lo, hi in edges_ref(idx):
+                v *= hi - lo
+            vols.append(v)
+        d = (diff("Hist.WF (wfB)", sp["wf"], wf) or
              diff("indexProd", sp["index_prod"], [list(i) for i in itertools.product(*[range(n) for n in dims])]) or
+             diff("cells", [c["idx"] for c in sp["cells"]], [list(i) for i, _ in cs]) or
              diff("cellEdgesRef", [[[_nq(x) for x in p] for p in c["edges"]] for c in sp["cells"]],
-                  [[[enc(lo), enc(hi)] for lo, hi in ed] for _, _, ed in ref]) or
-             diff("InRange (inRangeB)", [c["in_range"] for c in sp["cells"]], [True] * len(ref)) or
+                  [[[enc(lo), enc(hi)] for lo, hi in edges_ref(i)] for i, _ in cs]) or
+             diff("InRange (inRangeB)", [c["in_range"] for c in sp["cells"]],
+                  [len(i) == len(axes) and all(k < n for k, n in zip(i, dims)) for i, _ in cs]) or
              diff("cellRow", [[_nq(x) for x in c["row"]] for c in sp["cells"]],
-                  [[enc(lo) for lo, _ in ed] + [enc(v)] for _, v, ed in ref]) or
-             diff("Edges.NonEmptyAxes", sp["nonempty_axes"], True) or
-             diff("Hist.Valid (validB)", sp["valid"], axes_ok))
-        if d:
+                  [[enc(lo) for lo, _ in edges_ref(i)] + [enc(v)] for i, v in cs]) or
+             diff("cellVolume", [_nq(c["volume"]) for c in sp["cells"]], [enc(v) for v in vols]) or
+             diff("integralRef", _nq(sp["integral_ref"]), enc(sum(v * c[1] for v, c in zip(vols, cs)))) or
+             diff("Edges.NonEmptyAxes", sp["nonempty_axes"], all(len(ax) > 0 for ax in axes)) or
+             diff("Hist.ValidU", sp["valid_u"], wf and edges_checked) or
+             diff("Hist.Valid (validB)", sp["valid"], wf and edges_checked and not nested1))
+        if d or op == "mk_hist" or not wf:
             return d
+        ref = ref_cells(hc)
         rg = case["ranges"]
         if rg:
             valid = len(rg) == len(dims) and all((lo is None or lo >= 0) and (up is None or up <= n)
@@ -2071,6 +2164,15 @@ def _compare_spec(case, sp):
         zipped = map_nested(lambda _: next(cnt)[1], a["bins"])
         return (diff("NArr.zipWith", map_nested(_nq, sp["zip"]), zipped) or
                 diff("NArr.get?", [[i, _nq(v)] for i, v in sp["get"]], want))
+    if op == "csv_text":
+        vals = [q(x) for ax in axes_of(case["h"]) for x in ax] + [q(v) for v in flat_nested(case["h"]["bins"])]
+        want = ["{:f}".format(float(v)) for v in vals]
+
+        def pyparse(t):
+            neg = t.startswith("-")
+            ip, fp = t.lstrip("-").split(".")
+            return [neg, int(ip) * 1000000 + int(fp)]
+        return (diff("fmtF", sp["r"], want) or diff("parseFixed", sp["parsed"], [pyparse(t) for t in want]))
     if op == "h2g":
         return diff("pointOf", _norm_rows(sp["points"]), _ref_points(case))
     if op == "csv":
@@ -2409,17 +2511,24 @@ def oracle(case, res):
             if kind == "add":
                 if "e" in ob:
                     return f"{where}: add of histograms with equal edges raised {ob['e']}"
+                unk = getattr(ref[st["x"]], "unknown", False) or getattr(ref[st["y"]], "unknown", False)
                 ref["c"] = ref[st["x"]].add(ref[st["y"]], q(st["w"]))
+                ref["c"].unknown = unk
                 continue
             h = ref[o]
-            if not h.clean:
-                # the stored scale is stale (contents changed after it was stored): nothing is stated any more
-                # about this object's scale; its later behaviour is compared with the model only
-                if kind in ("scale_get", "scale_set"):
-                    if kind == "scale_get" and st["rc"]:
-                        h.scale_get(True)
-                    else:
-                        return None
+            if getattr(h, "unknown", False):
+                continue         # this object's contents are no longer determined by documented behaviour
+            if not h.clean and kind in ("scale_get", "scale_set"):
+                # the stored scale is stale (contents changed after it was stored; the user "must explicitly recompute"):
+                # nothing is stated about scale() of this object until it is recomputed; rescaling it by the stale
+                # scale makes its contents unspecified - only this object (and sums with it) are excluded from then on
+                if kind == "scale_get" and st["rc"]:
+                    pass
+                elif kind == "scale_get":
+                    continue
+                else:
+                    h.unknown = True
+                    continue
             if kind == "scale_get":
                 want = h.scale_get(st["rc"])
                 if ob.get("r") is None or not is_num(ob["r"]) or q(ob["r"]) != want:
@@ -2439,6 +2548,8 @@ def oracle(case, res):
                     return f"{where}: get_nevents gives {ob}, the contents sum to {want}"
         # final contents
         for o, h in ref.items():
+            if getattr(h, "unknown", False):
+                continue
             fin = res["final"][o]
             if fin is None:
                 return f"histogram {o} is missing at the end"
@@ -2494,7 +2605,7 @@ def oracle(case, res):
         ix = case["index"]
         dims = shape_of(hc)
         idx = [ix] if isinstance(ix, int) else list(ix)
-        if len(idx) != len(dims) or any(k >= n for k, n in zip(idx, dims)) or (isinstance(ix, int) and op == "bin_edges" and len(dims) > 1):
+        if len(idx) != len(dims) or any(k >= n for k, n in zip(idx, dims)) or (isinstance(ix, int) and op == "bin_edges" and "n" in hc["edges"]):
             return None
         cell = {tuple(i): (v, ed) for i, v, ed in ref_cells(hc)}[tuple(idx)]
         if "e" in res:
@@ -2717,8 +2828,12 @@ def oracle(case, res):
             if norm_graph(res["after_err"]) != norm_graph(g):
                 return "a failed rescale changed the graph"
             return None
+        if (res["get0"] is None) != (sc is None) or (sc is not None and q(res["get0"]) != q(sc)):
+            return f"scale() of a graph given scale {sc} returns {res['get0']}"
         if "e" in res["scaled"]:
             return f"scale({s}) raised {res['scaled']['e']} for a graph with scale {sc}"
+        if not res.get("ret_none", True):
+            return "graph.scale(other) must return None"
         after = res["scaled"]
         ratio = s / q(sc)
         last = names[dim - 1]
@@ -3130,9 +3245,12 @@ LEVEL_TEXT = ("Lean 4 theorems over exact rationals about a transcribed model of
               "_parse_error_names/scale, hist1d_to_csv/hist2d_to_csv/ToCSV.run, scale_to/ScaleTo, for all dimensions, "
               "shapes, contents, targets and namings (no bound); the model is tied to /repo by a correspondence check on "
               "cases whose float arithmetic is exact, plus a direct oracle (reference computation, CSV text parsed back, "
-              "'up to rounding' checked numerically) on the real code.")
+              "'up to rounding' checked numerically with stated bounds) on the real code; multi-step sequences on one histogram / "
+              "graph / element object are part of the generated scope.")
 LEVEL_NOTE = ("Trusted: Lean kernel (+ propext, Classical.choice, Quot.sound), the hand transcription validated by the "
-              "correspondence run, exact-rational stand-in for int/float arithmetic, the JSON protocol. Floating-point "
-              "rounding and '{:f}' formatting are outside the model (DESIGN.md section 8).")
+              "correspondence run on generated cases, exact-rational stand-in for int/float arithmetic (rounding outside "
+              "the model, DESIGN.md section 8), the Python references of the oracle, correct rounding of CPython's '{:f}' "
+              "(modelled as fmtF and compared as text), the JSON protocol. 'Recomputed scale equals s' is proved under the "
+              "no-stale-cache hypothesis only (the unconditional sentence is proved false of the code).")
 TECHNIQUE = "Lean 4 proof over hand-written model + correspondence check on exact-arithmetic cases + reference oracle"
 DESIGN_REF = "DESIGN.md section 3, C12"
